@@ -74,6 +74,7 @@ func VerifyUnit(prog *Program, specs *Specs, fn *ssa.Function, ct *Contract, opt
 	}
 	x.assumeFalseAtExit = opts.ProbeExit
 	x.known = opts.Known
+	x.extraProp = opts.ExtraProp
 	st := &State{x: x, regs: map[ssa.Value]Val{}, cells: map[*Cell]Val{}, heap: map[string]Term{}, defers: map[int][]deferred{}, fresh: map[string]bool{}, loopSnap: map[string][]Term{}, lockSnapNames: map[string][]string{}, loopFrame: map[string][]string{}}
 	fr := x.newFrame(fn, nil)
 	fr.top = true
@@ -118,6 +119,16 @@ func VerifyUnit(prog *Program, specs *Specs, fn *ssa.Function, ct *Contract, opt
 				st.assume(t)
 			}
 		}
+		if ct != nil && ct.Flags["pure"] && fn.Signature.Recv() == nil {
+			goal := TTrue
+			label := "the result depends on the arguments only"
+			if why := x.checkPureBody(fn); why != "" {
+				goal = TFalse
+				label += " (" + why + ")"
+			}
+			st.check(x.newObl(fn, "pure", "the result depends on the arguments only", x.safetyProps(), ""), goal)
+			_ = label
+		}
 		x.runBody(fr, st, func(st2 *State, results []Val) {
 			x.atExit(fr, st2, results, pvals)
 		})
@@ -149,6 +160,7 @@ type UnitOpts struct {
 	MaxPaths  int
 	ProbeExit bool
 	Known     []*KnownFinding
+	ExtraProp string // property whose sweep this unit belongs to: its safety obligations serve that property too
 }
 
 // atExit: postconditions, type invariants of the receiver, frame, lock balance.
@@ -393,14 +405,42 @@ func (x *Exec) loopClauses(fr *Frame, li *loopInfo, kind string) []*Clause {
 	return out
 }
 
-func (x *Exec) loopEnv(fr *Frame, st *State) *SpecEnv {
+func (x *Exec) loopEnv(fr *Frame, st *State, lis ...*loopInfo) *SpecEnv {
 	env := x.specEnv(fr, st, nil)
-	// expose SSA values that correspond to source variables by name: phis and cells
+	// source variables by name: the SSA value that held the variable when it was last mentioned
+	prefix := fmt.Sprintf("%d.", fr.id)
+	for key, sv := range st.names {
+		if !strings.HasPrefix(key, prefix) {
+			continue
+		}
+		name := key[len(prefix):]
+		if _, isParam := env.vars[name]; isParam {
+			// a parameter that was reassigned: the current value wins
+		}
+		var val Val
+		switch c := sv.(type) {
+		case *ssa.Const:
+			val = x.val(st, c)
+		default:
+			r, ok := st.regs[sv]
+			if !ok {
+				continue
+			}
+			val = r
+		}
+		if val.K == VCellPtr || val.K == VFieldPtr || val.K == VElemPtr || val.K == VClosure || val.K == VFunc {
+			continue
+		}
+		val.Typ = sv.Type()
+		env.vars[name] = val
+	}
+	// loop-carried variables: phis and cells
 	for v, val := range st.regs {
 		switch vv := v.(type) {
 		case *ssa.Phi:
+			// phis of other loops may share the name: only a name not bound yet is taken from a phi here
 			if vv.Parent() == fr.fn && vv.Comment != "" {
-				if _, taken := env.vars[vv.Comment]; !taken || true {
+				if _, taken := env.vars[vv.Comment]; !taken {
 					val.Typ = vv.Type()
 					env.vars[vv.Comment] = val
 				}
@@ -412,13 +452,31 @@ func (x *Exec) loopEnv(fr *Frame, st *State) *SpecEnv {
 					env.vars[vv.Comment] = cv
 				}
 			}
+			if vv.Parent() == fr.fn && vv.Comment != "" && val.K == VTerm && val.T.Sort == SRef {
+				// address-taken struct variable: the name denotes the object (fields via out.f)
+				val.Typ = vv.Type()
+				env.vars[vv.Comment] = val
+			}
+		}
+	}
+	// the phis of the loop the clause belongs to win over everything else
+	for _, li := range lis {
+		for _, in := range li.head.Instrs {
+			phi, ok := in.(*ssa.Phi)
+			if !ok {
+				break
+			}
+			if val, ok := st.regs[phi]; ok && phi.Comment != "" {
+				val.Typ = phi.Type()
+				env.vars[phi.Comment] = val
+			}
 		}
 	}
 	return env
 }
 
 func (x *Exec) checkLoopInv(fr *Frame, st *State, li *loopInfo, kind string) {
-	env := x.loopEnv(fr, st)
+	env := x.loopEnv(fr, st, li)
 	for _, cl := range x.loopClauses(fr, li, "invariant") {
 		t, err := env.EvalBool(cl.Node)
 		if err != nil {
@@ -435,7 +493,7 @@ func (x *Exec) checkLoopInv(fr *Frame, st *State, li *loopInfo, kind string) {
 }
 
 func (x *Exec) assumeLoopInv(fr *Frame, st *State, li *loopInfo) {
-	env := x.loopEnv(fr, st)
+	env := x.loopEnv(fr, st, li)
 	for _, cl := range x.loopClauses(fr, li, "invariant") {
 		t, err := env.EvalAssume(cl.Node)
 		if err != nil {
@@ -446,7 +504,7 @@ func (x *Exec) assumeLoopInv(fr *Frame, st *State, li *loopInfo) {
 }
 
 func (x *Exec) snapVariant(fr *Frame, st *State, li *loopInfo) {
-	env := x.loopEnv(fr, st)
+	env := x.loopEnv(fr, st, li)
 	var snap []Term
 	for _, cl := range x.loopClauses(fr, li, "decreases") {
 		for _, part := range splitTop(cl.Text, ',') {
@@ -528,7 +586,7 @@ func (x *Exec) checkVariant(fr *Frame, st *State, li *loopInfo) {
 	if len(cls) == 0 {
 		return
 	}
-	env := x.loopEnv(fr, st)
+	env := x.loopEnv(fr, st, li)
 	snap := st.loopSnap[li.key]
 	var cur []Term
 	for _, cl := range cls {
@@ -570,6 +628,7 @@ func (x *Exec) havocLoop(fr *Frame, st *State, li *loopInfo) {
 		v, inv := x.enc.freshVal(phi.Type(), "loop."+phi.Comment)
 		v.Typ = phi.Type()
 		st.regs[phi] = v
+		x.namePhi(fr, st, phi)
 		st.assumeAll(inv)
 		st.assumeLoaded(phi.Type(), v)
 		if phi.Comment == "rangeindex" && v.K == VTerm && v.T.Sort == SInt {
@@ -789,6 +848,9 @@ func (x *Exec) callWrites(c *ssa.CallCommon, ws *writeSet, depth int, seen map[*
 			if stubWrites[name] {
 				ws.all = true
 			}
+			for _, a := range stubArrays[name] {
+				ws.arrays[a] = true
+			}
 			return
 		}
 		key := fullKey(v)
@@ -857,6 +919,29 @@ func (x *Exec) staticModArrays(fn *ssa.Function, m string, ws *writeSet) bool {
 		for _, p := range fn.Params {
 			if p.Name() == base {
 				if sl, ok := types.Unalias(p.Type()).Underlying().(*types.Slice); ok {
+					ws.arrays[elemArrName(sl.Elem())] = true
+					return true
+				}
+			}
+		}
+		// x.f.g[*]: the element array of a slice- or map-typed field
+		if ps := strings.Split(base, "."); len(ps) >= 2 {
+			var cur types.Type
+			for _, p := range fn.Params {
+				if p.Name() == ps[0] {
+					cur = p.Type()
+				}
+			}
+			for i := 1; i < len(ps) && cur != nil; i++ {
+				obj, _, _ := types.LookupFieldOrMethod(cur, true, fnPkg(fn), ps[i])
+				if fv, ok := obj.(*types.Var); ok {
+					cur = fv.Type()
+				} else {
+					cur = nil
+				}
+			}
+			if cur != nil {
+				if sl, ok := types.Unalias(cur).Underlying().(*types.Slice); ok {
 					ws.arrays[elemArrName(sl.Elem())] = true
 					return true
 				}
